@@ -2,7 +2,7 @@
   C02: expand — both torch's size resolution (`expandSizes`) and the code's two-phase version (`expandResolve` + compatibility check)
   are characterised by the same per-position rule (`expandRule`).
 -/
-import TdVerif.Lemmas.C02Tree
+import TdVerif.Lemmas.C02Meta
 
 namespace TdVerif.C02
 
@@ -285,6 +285,23 @@ theorem expand_check_iff (bs sh : Shape) (hlen : bs.length ≤ sh.length) :
     rcases this with h1 | h2
     · exact hp.1 h1
     · exact hp.2 h2
+
+
+/-- the code's `expand` arithmetic on an already resolved, compatible target shape -/
+theorem expandMeta_nats (sh bs : Shape) (nm : Names) (hlen : bs.length ≤ sh.length)
+    (hc : ∀ i, i < bs.length → bs.getD i 0 = 1 ∨ sh.getD (sh.length - bs.length + i) 0 = bs.getD i 0) :
+    expandMeta (natsToInts sh) bs nm =
+      .ok (some (sh, nm.map (fun l => List.replicate (sh.length - bs.length) none ++ l), .expand sh bs.length)) := by
+  unfold expandMeta expandResolve
+  have hl : (natsToInts sh).length = sh.length := by simp [natsToInts]
+  have hchk : ((bs.zip (sh.drop (sh.length - bs.length))).any (fun x => decide (x.1 ≠ 1 ∧ x.2 ≠ x.1))) = false := by
+    rw [expand_check_iff bs sh hlen]
+    intro i hi hge
+    have := hc (i - (sh.length - bs.length)) (by omega)
+    rw [show sh.length - bs.length + (i - (sh.length - bs.length)) = i by omega] at this
+    exact this
+  simp only [hl, natsToInts_any_neg, natsToInts_toNat, Bool.false_eq_true, if_false, bind, Except.bind, pure, Except.pure,
+    throw, throwThe, MonadExceptOf.throw, show ¬ sh.length < bs.length by omega, hchk]
 
 
 end TdVerif.C02
